@@ -79,6 +79,9 @@ func check(p ssh.VerifC31Params) func(any) (string, string) {
 		if p.LateWriter > 0 {
 			cw[98] = p.LateWriter
 		}
+		if p.GapWriter {
+			cw[97] = 3
+		}
 		if e := orderOK(r.GotByServer, cw); e != "" {
 			return "application packet lost, duplicated or reordered across a re-key", "client->server: " + e
 		}
@@ -119,6 +122,7 @@ func run(c *vf.Ctx) {
 		p     ssh.VerifC31Params
 		bound int
 	}
+	fromMark := map[string]bool{} // scenarios whose deviations are placed only after the session is established
 	scs := []sc{
 		{"client requests, 2 client writers + 1 server writer", ssh.VerifC31Params{ClientWriters: 2, ServerWriters: 1, PerWriter: 2, PacketLen: 8, ClientRequest: true}, b},
 		{"both request, 1 writer each", ssh.VerifC31Params{ClientWriters: 1, ServerWriters: 1, PerWriter: 2, PacketLen: 8, ClientRequest: true, ServerRequest: true}, 1},
@@ -130,8 +134,14 @@ func run(c *vf.Ctx) {
 		{"queue exactly full + late writer + threshold 256B (writer woken into the next re-key)", ssh.VerifC31Params{PacketLen: 8, ClientRequest: true, Prefill: 64, LateWriter: 3, Threshold: 256}, 1},
 		{"queue exactly full + late writer, server requests next re-key", ssh.VerifC31Params{PacketLen: 8, ClientRequest: true, ServerRequest: true, Prefill: 64, LateWriter: 2}, 1},
 	}
+	// a writer with a packet queued during the re-key writes again just as the key exchange
+	// ends: its packets must not overtake each other while kexLoop finishes
+	scs = append(scs, sc{"writer with a queued packet writes again at NEWKEYS (from mark)", ssh.VerifC31Params{PacketLen: 8, GapWriter: true, ServerWriters: 1, PerWriter: 1}, 2})
+	fromMark["writer with a queued packet writes again at NEWKEYS (from mark)"] = true
+	fromMark["writer with a queued packet writes again at NEWKEYS, bound 3 (from mark)"] = true
 	if c.Thorough {
 		scs = append(scs,
+			sc{"writer with a queued packet writes again at NEWKEYS, bound 3 (from mark)", ssh.VerifC31Params{PacketLen: 8, GapWriter: true}, 3},
 			sc{"both request, 1 writer each, bound 2", ssh.VerifC31Params{ClientWriters: 1, ServerWriters: 1, PerWriter: 2, PacketLen: 8, ClientRequest: true, ServerRequest: true}, 2},
 			sc{"server requests, 1 client writer, bound 3", ssh.VerifC31Params{ClientWriters: 1, ServerWriters: 0, PerWriter: 2, PacketLen: 8, ServerRequest: true}, 3},
 			sc{"client requests, 1 client writer, bound 3", ssh.VerifC31Params{ClientWriters: 1, ServerWriters: 0, PerWriter: 2, PacketLen: 8, ClientRequest: true}, 3},
@@ -144,7 +154,7 @@ func run(c *vf.Ctx) {
 	var out []schedx.Scenario
 	for _, s := range scs {
 		s := s
-		out = append(out, schedx.Scenario{Name: s.name, Bound: s.bound, Body: func() any { return ssh.VerifC31Run(s.p) }, Check: check(s.p), Outcome: outcome})
+		out = append(out, schedx.Scenario{Name: s.name, Bound: s.bound, FromMark: fromMark[s.name], Body: func() any { return ssh.VerifC31Run(s.p) }, Check: check(s.p), Outcome: outcome})
 	}
 	schedx.Explore(c, out)
 }
